@@ -95,8 +95,12 @@ func c07Pattern(r *VRand, stats *VStats) (key, val, op string) {
 		d := c07Domain(r)
 		d = strings.ToUpper(d[:1]) + d[1:]
 		stats.Inc("pattern.invalid-char")
-		if r.Bool() {
+		switch r.Intn(3) {
+		case 0:
 			return "suffix", d, d
+		case 1:
+			k := []string{"Goo", "amPle", "x*", "OO"}[r.Intn(4)] // skipped keyword (outside the AC alphabet)
+			return "keyword", k, k
 		}
 		return "full", d, d
 	case 9:
